@@ -6,6 +6,13 @@ NODE = "src/allmydata/immutable/downloader/node.py"
 FETCH = "src/allmydata/immutable/downloader/fetcher.py"
 FINDER = "src/allmydata/immutable/downloader/finder.py"
 SEG = "src/allmydata/immutable/downloader/segmentation.py"
+STATUS = "src/allmydata/immutable/downloader/status.py"
+# the head of SegmentEvent.error (the text before it makes the snippet unique: other event classes have an error() too)
+SEG_EV_ERROR = ("        self._ev[\"segment_length\"] = length\n        self._ds.update_last_timestamp(when)\n\n"
+                "    def error(self, when):\n")
+RETIRE_BODY = ("        self.pending_requests.discard(req)\n        self.overdue_requests.discard(req)\n"
+               "        if req in self.overdue_timers:\n            self.overdue_timers[req].cancel()\n"
+               "            del self.overdue_timers[req]\n")
 
 MUTANTS = [
     # ---- C46.1 active-segment typestate
@@ -256,4 +263,81 @@ MUTANTS = [
     M("picked-share-never-started", FETCH,
       "            self._shares_from_server.add(server, sh)\n            self._start_share(sh, shnum)\n",
       "            self._shares_from_server.add(server, sh)\n", "C46.6"),
+    # ---- C46.8 (added after seeded change C46-E): no status call can abort a delivery loop
+    M("error-event-asserts-activation", STATUS, SEG_EV_ERROR,
+      SEG_EV_ERROR + "        assert self._ev[\"active_time\"] is not None\n", "C46.8"),
+    M("error-event-raises-when-never-activated", STATUS, SEG_EV_ERROR,
+      SEG_EV_ERROR + "        if not self._ev[\"active_time\"]:\n            raise ValueError(\"segment request was never activated\")\n",
+      "C46.8"),
+    M("error-event-checks-in-helper", STATUS, SEG_EV_ERROR,
+      "    def _check_active(self):\n        assert self._ev[\"active_time\"] is not None\n\n"
+      + SEG_EV_ERROR + "        self._check_active()\n", "C46.8"),
+    M("success-loop-no-longer-activates", NODE,
+      "                    seg_ev.activate(when)\n                    seg_ev.deliver(when, offset, len(segment), decodetime)\n",
+      "                    seg_ev.deliver(when, offset, len(segment), decodetime)\n", "C46.8"),
+    M("activate-records-nothing", STATUS,
+      "        if self._ev[\"active_time\"] is None:\n            self._ev[\"active_time\"] = when\n",
+      "        if self._ev[\"active_time\"] is None:\n            self._ds.update_last_timestamp(when)\n", "C46.8"),
+    M("error-event-refuses-an-activated-request", STATUS, SEG_EV_ERROR,
+      SEG_EV_ERROR + "        assert self._ev[\"active_time\"] is None\n", "C46.8"),
+    M("benign-error-event-asserts-not-finished", STATUS, SEG_EV_ERROR,
+      SEG_EV_ERROR + "        assert self._ev[\"finish_time\"] is None\n", None),
+    M("benign-deliver-event-explicit-raise", STATUS,
+      "        assert self._ev[\"active_time\"] is not None\n        self._ev[\"finish_time\"] = when\n        self._ev[\"success\"] = True\n",
+      "        if self._ev[\"active_time\"] is None:\n            raise AssertionError(\"not activated\")\n"
+      "        self._ev[\"finish_time\"] = when\n        self._ev[\"success\"] = True\n", None),
+    M("benign-activate-truth-test", STATUS,
+      "        if self._ev[\"active_time\"] is None:\n            self._ev[\"active_time\"] = when\n",
+      "        if not self._ev[\"active_time\"]:\n            self._ev[\"active_time\"] = when\n", None),
+    M("benign-error-asserts-activation-and-loops-activate", STATUS, SEG_EV_ERROR,
+      SEG_EV_ERROR + "        assert self._ev[\"active_time\"] is not None\n", None,
+      edits=[(NODE, "            seg_ev.error(now())\n", "            seg_ev.activate(now())\n            seg_ev.error(now())\n"),
+             (NODE, "                    seg_ev.error(when)\n", "                    seg_ev.activate(when)\n                    seg_ev.error(when)\n")]),
+    M("benign-error-asserts-activation-and-get-segment-activates", STATUS, SEG_EV_ERROR,
+      SEG_EV_ERROR + "        assert self._ev[\"active_time\"] is not None\n", None,
+      edits=[(NODE, "        seg_ev = self._download_status.add_segment_request(segnum, now())\n",
+              "        seg_ev = self._download_status.add_segment_request(segnum, now())\n        seg_ev.activate(now())\n")]),
+    M("activate-refuses-second-activation", STATUS,
+      "        if self._ev[\"active_time\"] is None:\n            self._ev[\"active_time\"] = when\n",
+      "        assert self._ev[\"active_time\"] is None\n        self._ev[\"active_time\"] = when\n", "C46.8"),
+    M("benign-error-event-asserts-argument", STATUS, SEG_EV_ERROR,
+      SEG_EV_ERROR + "        assert when is not None\n", None),
+    M("benign-delivery-loop-renamed-event", NODE,
+      "        for (d,c,seg_ev) in self._extract_requests(sf.segnum):\n            seg_ev.error(now())\n",
+      "        for (d,c,ev) in self._extract_requests(sf.segnum):\n            ev.error(now())\n", None),
+    M("vanish-status-event-not-queued", NODE,
+      "        self._segment_requests.append( (segnum, d, c, seg_ev, lp) )\n",
+      "        self._segment_requests.append( [segnum, d, c, seg_ev, lp] )\n", "ANALYSIS-ERROR"),
+    # ---- C46.9 (added after seeded change C46-F): the finder retires a request whatever is left of its bookkeeping
+    M("retire-pops-timer-first", FINDER, RETIRE_BODY,
+      "        self.overdue_timers.pop(req).cancel()\n        self.pending_requests.discard(req)\n"
+      "        self.overdue_requests.discard(req)\n", "C46.9"),
+    M("retire-deletes-timer-unguarded-first", FINDER, RETIRE_BODY,
+      "        timer = self.overdue_timers[req]\n        del self.overdue_timers[req]\n        timer.cancel()\n"
+      "        self.pending_requests.discard(req)\n        self.overdue_requests.discard(req)\n", "C46.9"),
+    M("retire-cancels-get-result-unchecked", FINDER, RETIRE_BODY,
+      "        timer = self.overdue_timers.get(req)\n        timer.cancel()\n"
+      "        self.pending_requests.discard(req)\n        self.overdue_requests.discard(req)\n"
+      "        self.overdue_timers.pop(req, None)\n", "C46.9"),
+    M("retire-removes-overdue-mark-first", FINDER, RETIRE_BODY,
+      "        self.overdue_requests.remove(req)\n        self.pending_requests.discard(req)\n"
+      "        if req in self.overdue_timers:\n            self.overdue_timers[req].cancel()\n"
+      "            del self.overdue_timers[req]\n", "C46.9"),
+    M("retire-asserts-timer-present", FINDER, RETIRE_BODY,
+      "        assert req in self.overdue_timers\n" + RETIRE_BODY, "C46.9"),
+    M("benign-retire-timer-first-guarded", FINDER, RETIRE_BODY,
+      "        if req in self.overdue_timers:\n            self.overdue_timers[req].cancel()\n"
+      "            del self.overdue_timers[req]\n        self.pending_requests.discard(req)\n"
+      "        self.overdue_requests.discard(req)\n", None),
+    M("benign-retire-pop-default-then-test", FINDER, RETIRE_BODY,
+      "        timer = self.overdue_timers.pop(req, None)\n        if timer is not None:\n            timer.cancel()\n"
+      "        self.pending_requests.discard(req)\n        self.overdue_requests.discard(req)\n", None),
+    M("benign-retire-try-keyerror", FINDER, RETIRE_BODY,
+      "        try:\n            self.overdue_timers.pop(req).cancel()\n        except KeyError:\n            pass\n"
+      "        self.pending_requests.discard(req)\n        self.overdue_requests.discard(req)\n", None),
+    M("benign-retire-try-finally", FINDER, RETIRE_BODY,
+      "        try:\n            if req in self.overdue_timers:\n                self.overdue_timers.pop(req).cancel()\n"
+      "        finally:\n            self.pending_requests.discard(req)\n            self.overdue_requests.discard(req)\n", None),
+    M("benign-retire-asserts-pending", FINDER, RETIRE_BODY,
+      "        assert req in self.pending_requests\n" + RETIRE_BODY, None),
 ]
